@@ -80,7 +80,14 @@ func (fr *frame) escapeAt(st *state, ins ssa.Instruction) {
 				continue
 			}
 			if into == nil {
-				delete(st.base, k)
+				// from here on the object can be reached from the heap: the lineage survives only as the weaker, type-based
+				// statement (see baseObj.escaped)
+				for i := range b.objs {
+					if b.objs[i].term == ot.term {
+						b.objs[i].escaped = true
+					}
+				}
+				st.base[k] = b
 				continue
 			}
 			dup := false
@@ -677,7 +684,7 @@ func (fr *frame) doMakeSlice(b *ssa.BasicBlock, st *state, x *ssa.MakeSlice) {
 	st.alloc = na
 	el := x.Type().Underlying().(*types.Slice).Elem()
 	res := fr.define(x, fmt.Sprintf("(mk-slice %s 0 %s)", rn, ln))
-	fr.objTerm[x] = baseObj{term: fmt.Sprintf("(oid %s)", rn), typ: el}
+	fr.objTerm[x] = baseObj{term: fmt.Sprintf("(oid %s)", rn), typ: el, backing: true}
 	fr.vc.assumeG(fmt.Sprintf("(= (tyof %s) (- 2000))", rn))
 	fr.zeroRegion(st, el, res)
 }
@@ -700,7 +707,7 @@ func (fr *frame) doAppend(b *ssa.BasicBlock, st *state, x ssa.Value, args []ssa.
 		return
 	}
 	res := fr.define(x, fmt.Sprintf("(mk-slice %s 0 (+ (slen %s) (slen %s)))", rn, s, t))
-	fr.objTerm[x] = baseObj{term: fmt.Sprintf("(oid %s)", rn), typ: el}
+	fr.objTerm[x] = baseObj{term: fmt.Sprintf("(oid %s)", rn), typ: el, backing: true}
 	fr.vc.assumeG(fmt.Sprintf("(= (tyof %s) (- 2000))", rn))
 	for _, lf := range c.leaves(el) {
 		p1 := addrPath(fmt.Sprintf("(selem %s ap!i)", res), lf.fids)
